@@ -16,7 +16,7 @@ import sys
 import time
 import traceback
 
-from .core import VERIF_DIR, CaseInfo, HarnessError, Reject, SubCheck, Violation, shrink, spec_hash
+from .core import VERIF_DIR, CaseInfo, HarnessError, Reject, ResourceLimit, SubCheck, Violation, shrink, spec_hash
 
 MAX_FAIL_PER_BUCKET = 12
 
@@ -66,6 +66,23 @@ class CaseTimeout(BaseException):
 
 
 CASE_CPU_SECONDS = float(os.environ.get('PV_CASE_CPU_SECONDS', '300'))
+PROCESS_GB = float(os.environ.get('PV_PROCESS_GB', '8'))
+
+
+def limit_address_space():
+    """sympy's simplification / ODE solving occasionally grows without bound on a generated input (a worker was
+    killed by the kernel at 60 GB): every process of a run gets an address-space limit, the resulting MemoryError
+    is counted as an inconclusive case (see eval_case / core.guard)."""
+    try:
+        import resource
+
+        if PROCESS_GB > 0:
+            lim = int(PROCESS_GB * 2**30)
+            soft, hard = resource.getrlimit(resource.RLIMIT_AS)
+            if hard == resource.RLIM_INFINITY or lim <= hard:
+                resource.setrlimit(resource.RLIMIT_AS, (lim, hard))
+    except Exception:
+        pass
 
 
 def eval_case(sub: SubCheck, spec):
@@ -96,7 +113,7 @@ def eval_case(sub: SubCheck, spec):
             return 'reject', r.why
         except Violation as v:
             return 'fail', v
-        except CaseTimeout:
+        except (CaseTimeout, ResourceLimit, MemoryError):
             return 'timeout', None
     finally:
         if armed:
@@ -118,6 +135,7 @@ _POISONED = [False]
 def run_shard(prop, subname, shard, nshards, n, seed, tier):
     """Executed in a worker process."""
     os.environ.setdefault('PYTHONHASHSEED', '0')
+    limit_address_space()
     if _POISONED[0]:
         # an earlier case in this process was interrupted asynchronously by the CPU watchdog: module state
         # (half-finished imports, caches) may be inconsistent, so later shards run in a fresh interpreter
@@ -249,6 +267,7 @@ def main(argv=None):
         env = dict(os.environ, PYTHONHASHSEED='0')
         os.execve(sys.executable, [sys.executable, '-m', 'pv.run'] + sys.argv[1:], env)
     os.environ.setdefault('PYTHONHASHSEED', '0')
+    limit_address_space()
     try:
         base_seed = int(os.environ.get('VERIF_SEED', '1') or '1')
     except ValueError:
